@@ -62,13 +62,14 @@ def flags_of(job):
 
 
 def build(sim_dir=SIM_DIR):
-    """Rebuild the harness (and volute, from the path dependency's working tree)
-    for the Miri target.  Any failure is a harness error (exit 2)."""
+    """Rebuild the harness (and volute, from the path dependency's working tree) for the Miri target, in the
+    dev profile and in the release profile.  Any failure is a harness error (exit 2)."""
     t0 = time.time()
-    p = subprocess.run(["cargo", "+nightly", "miri", "run", "-q", "--offline", "--", "--build-only"],
-                       cwd=sim_dir, env=env_for(miriflags(0, 0)), capture_output=True, text=True, timeout=1800)
-    if p.returncode != 0 or "c19_sim built" not in p.stdout:
-        raise HarnessError("build of the simulation harness failed:\n" + p.stdout[-2000:] + p.stderr[-6000:])
+    for prof in ([], ["--release"]):
+        p = subprocess.run(["cargo", "+nightly", "miri", "run", "-q", "--offline"] + prof + ["--", "--build-only"],
+                           cwd=sim_dir, env=env_for(miriflags(0, 0)), capture_output=True, text=True, timeout=1800)
+        if p.returncode != 0 or "c19_sim built" not in p.stdout:
+            raise HarnessError(f"build of the simulation harness ({'release' if prof else 'dev'} profile) failed:\n" + p.stdout[-2000:] + p.stderr[-6000:])
     return time.time() - t0
 
 
@@ -158,7 +159,7 @@ def run_job(job, sim_dir=SIM_DIR, repo_marker=REPO, timeout_factor=10.0, cancel=
     """Execute one simulated run in a fresh process.  Returns a result dict:
     {status: ok|ub|deadlock|harness|timeout, log, stderr, wall, ...}."""
     flags = flags_of(job)
-    cmd = ["cargo", "+nightly", "miri", "run", "-q", "--offline", "--"] + argv_of(job)
+    cmd = ["cargo", "+nightly", "miri", "run", "-q", "--offline"] + (["--release"] if job.get("release") else []) + ["--"] + argv_of(job)
     tmo = max(180.0, timeout_factor * predicted_cost(job))
     t0 = time.time()
     if cancel is not None and cancel.is_set():
